@@ -99,3 +99,27 @@ Theorem C16_source_encode_url : forall (O : oracles) (B : backend) (s : str),
   same_outcome (gen_encode_url O B s) (encode_url O B s).
 Proof. exact gen_encode_url_ok. Qed.
 Print Assumptions C16_source_encode_url.
+
+(** Tie to the source by translation: _encode_host of yarl/_url.py - the function every
+    host goes through - is re-read from the working tree on every run (harness/gen_model.py,
+    HostFn: [host and (host[-1].isdigit() or ":" in host)], the partition at "%", the
+    try/except/else around ip_address() as a match on the oracle answer, [ip.compressed] /
+    [ip.version], [NOT_REG_NAME.search(t)] as "t is not a reg-name" over the regenerated tables,
+    the blocks that only prepare the message of the ValueError they raise, str.lower as the oracle,
+    _idna_encode as the model's two-oracle fallback) and proved equal to the model function the
+    theorems above are about, on every host text and either value of validate_host.  The IDNA
+    helpers themselves are library calls: their source text is pinned (any edit fails closed) and
+    read as the oracle fallback chain. *)
+From Yarl Require Import Model.Host Model.Url Generated.HostGen Generated.UrlGen Proofs.GenHostProofs.
+Theorem C16_source_encode_host : forall (O : oracles) (host : str) (validate : bool),
+  gen_encode_host O host validate = encode_host O host validate.
+Proof. exact gen_encode_host_ok. Qed.
+Print Assumptions C16_source_encode_host.
+Theorem C16_source_idna : forall (O : oracles) (h : str),
+  gen_idna_encode O h = idna_encode O h /\ gen_idna_decode O h = idna_decode O h.
+Proof. exact gen_idna_ok. Qed.
+Print Assumptions C16_source_idna.
+Theorem C16_source_host_authority : forall (O : oracles) (B : backend) (u : url),
+  gen_host O u = host O u /\ gen_authority O B u = authority O B u.
+Proof. intros O B u. split; [apply gen_host_ok|apply gen_authority_ok]. Qed.
+Print Assumptions C16_source_host_authority.
